@@ -43,8 +43,8 @@ def plan(ctx):
     return items
 
 
-def compare(res, name, m, ref, x, dev, rank0=1):
-    o = outcome(m.validate, x)
+def compare(res, name, m, ref, x, dev, rank0=1, opts=None):
+    o = outcome(m.validate, x, **(opts or {}))
     a = o[1] if o[0] == 'ok' else None
     try:
         b = ref(x)
@@ -59,7 +59,8 @@ def compare(res, name, m, ref, x, dev, rank0=1):
     else:
         clause = 'canonical-differs'
     shape = ''.join('d' if c.isdigit() else 'a' if c.isalpha() else 's' if c.isspace() else 'p' for c in x[:30]) if isinstance(x, str) else 'nonstr'
-    res.viol(ID, clause, name, 'validate', {'module': name, 'number': x, 'devclass': dev}, 'validate(%r) -> %r, reference -> %r' % (x, a if a is not None else o[1:], b),
+    res.viol(ID, clause, name, 'validate' + ('(%s)' % ','.join(sorted(opts)) if opts else ''),
+             {'module': name, 'number': x, 'devclass': dev, 'options': {k: core.enc(v) for k, v in (opts or {}).items()}}, 'validate(%r) -> %r, reference -> %r' % (x, a if a is not None else o[1:], b),
              'agreement', excinfo='len%d:%s' % (len(x), 'rejected' if a is None else 'ascii-result' if a.isascii() else 'nonascii-result'),
              devclass=dev, rank=[rank0, len(x), x])
     return 1
@@ -100,6 +101,22 @@ def work(item):
                 n += 1
                 nt += compare(res, name, m, ref, c * ln, 'run', ln)
     elif kind == 'e2':
+        # inputs constructed with the reference's own encoders (correct checksum, valid or not by the other rules)
+        for x in standards.constructed_inputs(name):
+            n += 1
+            nt += compare(res, name, m, ref, x, 'constructed', 1)
+        # documented validate() options with the reference adapted to them
+        optrefs = []
+        if name == 'stdnum.isbn':
+            def ref13(x, f=standards.isbn):
+                v = f(x)
+                if v is None or len(v) == 13:
+                    return v
+                body = '978' + v[:9]
+                return body + standards.gs1_check(body)
+            optrefs.append(({'convert': True}, ref13))
+        if name == 'stdnum.iban':
+            optrefs.append(({'check_country': False}, lambda x, f=standards.iban: f(x, repo=core.REPO, national=False)))
         alpha = standards.ALPHABETS[name]
         vals, st = e2.valid_set(name, m, tier, nseeds=8 if quick else 40, cap=150 if quick else 3000)
         tr = st['tried']
@@ -120,6 +137,14 @@ def work(item):
             for t in (v[:-1], v[1:], v + v[-1:], v + v, v[:len(v) // 2]):
                 n += 1
                 nt += compare(res, name, m, ref, t, 'e2-length', 1)
+            for o_, r_ in optrefs:
+                for i in range(len(v)):
+                    for c in alpha[:14]:
+                        if c != v[i]:
+                            n += 1
+                            nt += compare(res, name, m, r_, v[:i] + c + v[i + 1:], 'e2-sub', 1, o_)
+                n += 1
+                nt += compare(res, name, m, r_, v, 'e2-valid', 1, o_)
     else:
         _k, name, part, tier = item
         total, body, checks, stride = SPACES[name]
@@ -152,5 +177,15 @@ def replay(case):
     if name == 'stdnum.iban':
         ref = lambda x, f=standards.iban: f(x, repo=core.REPO)   # noqa: E731
     res = Result()
-    compare(res, name, m, ref, case['number'], case.get('devclass', ''))
+    opts = {k: core.dec(v) for k, v in case.get('options', {}).items()}
+    if opts.get('convert') and name == 'stdnum.isbn':
+        def ref(x, f=standards.isbn):   # noqa: F811
+            v = f(x)
+            if v is None or len(v) == 13:
+                return v
+            body = '978' + v[:9]
+            return body + standards.gs1_check(body)
+    if 'check_country' in opts and name == 'stdnum.iban':
+        ref = lambda x, f=standards.iban: f(x, repo=core.REPO, national=False)   # noqa: E731
+    compare(res, name, m, ref, case['number'], case.get('devclass', ''), 1, opts or None)
     return res['violations']
